@@ -415,7 +415,7 @@ async fn fabitn(
 
     let ot_futs = shared_rngs.enumerate().map(async |(k, mut rng)| {
         if k == i {
-            return Ok((vec![], vec![]));
+            return Ok((vec![], vec![], None));
         }
         // TODO unfortunately we can't do pairwise OT sending/receiving in parallel due to limitations in the
         //  Channel implementation. If we execute
@@ -430,15 +430,16 @@ async fn fabitn(
         // an existing channel for this.
         debug!("Starting pairwise OT with party {}", k);
         if let Some(shared) = &mut rng {
-            if i < k {
+            let (keys, macs) = if i < k {
                 let keys = kos_ot_sender(channel, &deltas, k, shared).await?;
                 let macs = kos_ot_receiver(channel, &x, k, shared).await?;
-                Ok((keys, macs))
+                (keys, macs)
             } else {
                 let macs = kos_ot_receiver(channel, &x, k, shared).await?;
                 let keys = kos_ot_sender(channel, &deltas, k, shared).await?;
-                Ok((keys, macs))
-            }
+                (keys, macs)
+            };
+            Ok((keys, macs, rng))
         } else {
             Err(Error::EmptyVector)
         }
@@ -446,7 +447,18 @@ async fn fabitn(
 
     // TODO having keys and macs as Blocks will likely further increase performance as then
     // explicit sse2 instructions are used (whe available) (robinhundt 2.9.25)
-    let (mut keys, mut macs): (Vec<_>, Vec<_>) = try_join_all(ot_futs).await?.into_iter().unzip();
+    let mut keys = Vec::with_capacity(n);
+    let mut macs = Vec::with_capacity(n);
+    for (k, (keys_k, macs_k, rng)) in try_join_all(ot_futs).await?.into_iter().enumerate() {
+        keys.push(keys_k);
+        macs.push(macs_k);
+        // Keep the advanced generator: the next call must not derive the same OT check
+        // coefficients from the same position of the pairwise stream again.
+        if k != i {
+            let (a, b) = if i < k { (i, k) } else { (k, i) };
+            shared_two_by_two[a][b] = rng;
+        }
+    }
 
     drop(deltas);
 
